@@ -138,7 +138,8 @@ Qed.
 Record rows_structure (prefix : str) (k : kind) (rows : list srow) (st : structure) : Prop := {
   rs_ordered : st_ordered st = Some (map (name_idx prefix) (seq 1 (length rows)));
   rs_by_name : forall j row r, nth_error rows j = Some row -> row_ref t row = Some r ->
-               by_name st (name_idx prefix (S j)) = Some (mk_sentry (name_idx prefix (S j)) r k)
+               by_name st (name_idx prefix (S j)) = Some (mk_sentry (name_idx prefix (S j)) r k);
+  rs_beyond : forall i, length rows < i -> by_name st (name_idx prefix i) = None
 }.
 
 Lemma parse_children_structure prefix k rows r0 info :
@@ -151,11 +152,16 @@ Proof.
   intros Hc Hr.
   destruct (parse_children_contig prefix k rows 1 [] [] [] [] [] Hc Hr) as [byl' [reps' E]]; [reflexivity|].
   rewrite E. cbn [rev app]. eexists. split; [reflexivity|]. split; [reflexivity|]. split; [reflexivity|].
-  constructor; [reflexivity|].
-  intros j row r Hn Hx. unfold by_name. cbn [st_by_name].
-  rewrite slookup_rev_nodup.
-  - apply (row_entries_lookup prefix k rows 1 j row r Hr Hn Hx).
-  - rewrite row_entries_keys by exact Hr. apply name_idx_NoDup.
+  constructor; [reflexivity| |].
+  - intros j row r Hn Hx. unfold by_name. cbn [st_by_name].
+    rewrite slookup_rev_nodup.
+    + apply (row_entries_lookup prefix k rows 1 j row r Hr Hn Hx).
+    + rewrite row_entries_keys by exact Hr. apply name_idx_NoDup.
+  - intros i Hi. unfold by_name. cbn [st_by_name].
+    rewrite slookup_rev_nodup by (rewrite row_entries_keys by exact Hr; apply name_idx_NoDup).
+    apply slookup_none. rewrite row_entries_keys by exact Hr. intros Hin.
+    apply in_map_iff in Hin. destruct Hin as [j [Ej Hj]]. apply name_idx_inj in Ej. subst j.
+    apply in_seq in Hj. lia.
 Qed.
 
 Lemma rows_structure_ref_in prefix k rows st j row r : rows_structure prefix k rows st ->
@@ -526,17 +532,22 @@ Definition comp_rt (P : str) (st : structure) (j : nat) (s : str) (c : comp) : P
 Definition comp_piece_rt (P : str) (st : structure) (j : nat) (s : str) : Prop :=
   s = [] \/ (is_blank s = false /\ exists c, comp_rt P st j s c).
 
+(* the component objects of one piece: none for an empty piece, else the one parsed from it *)
+Definition comp_group_rel (P : str) (st : structure) (js : nat * str) (g : list comp) : Prop :=
+  (snd js = [] /\ g = []) \/ (is_blank (snd js) = false /\ exists c, g = [c] /\ comp_rt P st (fst js) (snd js) c).
+
 Lemma parse_comps_named P rows st : dt_name_ok P -> rows_structure t P CMP rows st ->
   forall cs a,
   (forall j s, In (j, s) (combine (seq (S a) (length cs)) cs) -> comp_piece_rt P st j s) ->
   exists gs,
     parse_components_aux t TOLERANT e leaf (Some P) (Some st) (combine (seq (S a) (length cs)) cs) = Ok (concat gs) /\
     Forall2 (piece_group (enc_comp t e)) cs gs /\
-    groups_ok c_name (map (name_idx P) (seq (S a) (length cs))) gs.
+    groups_ok c_name (map (name_idx P) (seq (S a) (length cs))) gs /\
+    Forall2 (comp_group_rel P st) (combine (seq (S a) (length cs)) cs) gs.
 Proof.
   intros HP Hs. induction cs as [|s cs IH]; intros a Hok.
   - exists []. repeat split; constructor.
-  - destruct (IH (S a)) as [gs [E [F G]]]. { intros j q Hq. apply Hok. now right. }
+  - destruct (IH (S a)) as [gs [E [F [G R]]]]. { intros j q Hq. apply Hok. now right. }
     cbn [length seq combine parse_components_aux].
     rewrite (dn_not_base P HP), (dn_is_varies P HP). cbn [opt_is_none orb str_of_opt].
     assert (Hm : has_map (Some st) = true) by (unfold has_map; now rewrite (rs_ordered _ _ _ _ _ Hs)).
@@ -544,10 +555,12 @@ Proof.
     destruct (Hok (S a) s (or_introl eq_refl)) as [->|[Hb [c [Hp [Hn He]]]]].
     + exists ([] :: gs). cbn [is_blank strip strip_by rstrip_by lstrip_by rev negb concat app].
       split; [exact E|]. split; [constructor; [left; split; reflexivity|exact F]|].
-      cbn [map groups_ok]. split; [intros x []|exact G].
+      split; [cbn [map groups_ok]; split; [intros x []|exact G]|].
+      constructor; [left; split; reflexivity|exact R].
     + exists ([c] :: gs). rewrite Hb. cbn [negb]. rewrite Hp, E. cbn [bind concat app].
       split; [reflexivity|]. split; [constructor; [right; exists c; auto|exact F]|].
-      cbn [map groups_ok]. split; [intros x [<-|[]]; exact Hn|exact G].
+      split; [cbn [map groups_ok]; split; [intros x [<-|[]]; exact Hn|exact G]|].
+      constructor; [right; split; [exact Hb|]; exists c; split; [reflexivity|]; repeat split; assumption|exact R].
 Qed.
 
 Lemma groups_ok_more {A} (nm : A -> option str) ks more gs : groups_ok nm ks gs -> groups_ok nm (ks ++ more) gs.
@@ -593,7 +606,9 @@ Lemma parse_field_complex text name ref fv n P rows st :
   not_msh12 n -> dt_name_ok P -> rows_structure t P CMP rows st -> rows_resolved t rows ->
   comps_ok P st rows text ->
   exists x, parse_field t TOLERANT e leaf text name ref fv = Ok x /\ f_name x = Some n /\
-            enc_field t e x = Ok text.
+            enc_field t e x = Ok text /\
+            (text <> [] -> exists gs, f_children x = concat gs /\
+                                     Forall2 (comp_group_rel P st) (indexed (bsplit (csep e) text)) gs).
 Proof.
   intros Hc Hm Hn HP Hs Hr Hok. rewrite parse_field_unfold, Hc, Hm. cbn [bind f_dt f_st].
   unfold parse_components.
@@ -609,7 +624,7 @@ Proof.
     rewrite Hm', (name_idx_not_varies_us P 1 (dn_not_varies P HP)).
     change (is_blank []) with true. cbn [negb orb bind is_strict andb length Nat.ltb Nat.leb add_comps f_name f_dt f_st f_children].
     exists (mk_field_rec (Some n) (Some P) (Some st) []).
-    split; [reflexivity|]. split; [reflexivity|].
+    split; [reflexivity|]. split; [reflexivity|]. split; [|congruence].
     pose proof (Henc []) as H0. cbn [concat] in H0. rewrite H0. f_equal.
     apply (level_codec c_name (enc_comp t e) (csep e) (Some st) [] []).
     + rewrite (ordered_of_rows P CMP rows st Hs). apply name_idx_NoDup.
@@ -617,7 +632,7 @@ Proof.
     + exact I.
     + constructor.
     + apply no_trail_nil.
-  - destruct (parse_comps_named P rows st HP Hs (bsplit (csep e) text) 0 Hok) as [gs [E [F G]]].
+  - destruct (parse_comps_named P rows st HP Hs (bsplit (csep e) text) 0 Hok) as [gs [E [F [G R]]]].
     assert (E' : parse_components_aux t TOLERANT e leaf (Some P) (Some st) (indexed (bsplit (csep e) text)) = Ok (concat gs))
       by exact E.
     rewrite E'. cbn [bind is_strict negb andb]. rewrite (dn_not_base P HP). cbn [andb].
@@ -628,12 +643,14 @@ Proof.
     2:{ intros x Hx. destruct (groups_ok_members c_name P gs 1 (length rows) x GK Hx) as [k [Hk Ek]].
         exists k. split; [lia|exact Ek]. }
     cbn [f_name f_dt f_st f_children app]. eexists. split; [reflexivity|]. split; [reflexivity|].
-    rewrite (Henc gs). f_equal.
-    rewrite (level_codec c_name (enc_comp t e) (csep e) (Some st) (bsplit (csep e) text) gs); auto.
-    + apply bjoin_bsplit.
-    + rewrite (ordered_of_rows P CMP rows st Hs). apply name_idx_NoDup.
-    + rewrite (ordered_of_rows P CMP rows st Hs). apply names_no_ST.
-    + now rewrite (ordered_of_rows P CMP rows st Hs).
+    split.
+    + rewrite (Henc gs). f_equal.
+      rewrite (level_codec c_name (enc_comp t e) (csep e) (Some st) (bsplit (csep e) text) gs); auto.
+      * apply bjoin_bsplit.
+      * rewrite (ordered_of_rows P CMP rows st Hs). apply name_idx_NoDup.
+      * rewrite (ordered_of_rows P CMP rows st Hs). apply names_no_ST.
+      * now rewrite (ordered_of_rows P CMP rows st Hs).
+    + intros _. exists gs. split; [reflexivity|exact R].
 Qed.
 
 End Named.
@@ -749,7 +766,7 @@ Theorem seg_roundtrip st (inf : bool) n (fs : list str) :
   mk_segment t sn None = Ok (mk_seg sn st inf (N.of_nat n) (N.of_nat n) []) ->
   st_ordered st = Some (map (name_idx sn) (seq 1 n)) ->
   (forall i, 1 <= i <= n -> opt_is_some (by_name st (name_idx sn i)) = true) ->
-  no_trail fs -> length fs <= n ->
+  no_trail fs -> (inf = true \/ length fs <= n) ->
   (forall i f, In (i, f) (indexed fs) -> tfield st inf i f) ->
   exists s gs,
     parse_segment t TOLERANT e leaf (bjoin (fsep e) (sn :: fs)) None = Ok s /\
@@ -795,17 +812,21 @@ Proof.
     - erewrite parse_fields_aux_groups; [|exact sn_no_msh|].
       2:{ eapply Forall2_impl; [|exact G]. intros p g. apply groups_rel_field_group. }
       cbn [bind]. rewrite (add_fields_groups t sn st inf (N.of_nat n) gs 1 (N.of_nat n) []); auto.
-      right. intros i Hi. apply Hby. lia. }
+      destruct Hlen as [Hinf|Hlen]; [left; exact Hinf|right]. intros i Hi. apply Hby. lia. }
   split; [exact Hparse|]. split; [reflexivity|]. split; [exact G|].
+  assert (HGE : Forall2 (group_enc t e) fs gs).
+  { clear -G. unfold indexed in G. revert G. generalize 1. revert gs.
+    induction fs as [|f fs IH]; intros gs a G; inversion G; subst; constructor.
+    + eapply groups_rel_enc; eauto.
+    + eapply IH; eauto. }
   apply (enc_segment_groups t e sn st inf n last gs fs); auto.
   - subst last. apply last_idx_ge.
   - destruct inf.
-    + subst last. pose proof (last_idx_ge true gs 1 (N.of_nat n)). lia.
-    + lia.
-  - clear -G. unfold indexed in G. revert G. generalize 1. revert gs.
-    induction fs as [|f fs IH]; intros gs a G; inversion G; subst; constructor.
-    + eapply groups_rel_enc; eauto.
-    + eapply IH; eauto.
+    + pose proof (group_enc_no_trail t e fs gs HGE Ht) as Hgt.
+      destruct (no_trail_cases gs Hgt) as [->|[gs' [g [-> Hg]]]]; [cbn; lia|].
+      subst last. pose proof (last_idx_reaches gs' 1 (N.of_nat n) g Hg) as L.
+      rewrite app_length. cbn [length]. lia.
+    + destruct Hlen as [Hinf|Hlen]; [discriminate|lia].
 Qed.
 
 End SegLevel.
@@ -864,7 +885,10 @@ Lemma mk_segment_table sn rows :
   (forall row, In row rows -> exists r, row_ref t row = Some r /\ ref_info r <> None) ->
   exists st inf,
     mk_segment t sn None = Ok (mk_seg sn st inf (N.of_nat (length rows)) (N.of_nat (length rows)) []) /\
-    rows_structure t sn FIE rows st.
+    rows_structure t sn FIE rows st /\
+    (* allow_infinite_children: the last field is of type varies *)
+    (forall lrow li, nth_error rows (pred (length rows)) = Some lrow -> row_ref t lrow = Some (SLeaf li) ->
+                     i_dt li = Some (unbs "varies") -> inf = true).
 Proof.
   intros H3 Hu Hz Hl Hc Hr Hinfo. unfold mk_segment. rewrite Hz, Hu.
   unfold structure_for, load_reference. cbn [table_of]. rewrite Hl.
@@ -872,15 +896,20 @@ Proof.
   destruct (parse_children_structure t sn FIE rows (SSeqIn false rows None) None Hc Hr) as [st [E [_ [_ Hs]]]].
   rewrite E. cbn [bind]. rewrite (rs_ordered _ _ _ _ _ Hs).
   destruct (length rows) as [|n] eqn:En.
-  - exists st, false. split; [reflexivity|exact Hs].
+  - exists st, false. split; [reflexivity|]. split; [exact Hs|].
+    intros lrow li Hn. destruct rows; [discriminate|discriminate].
   - rewrite last_opt_names.
     destruct (nth_error rows n) as [row|] eqn:Er; [|apply nth_error_None in Er; lia].
     destruct (Hinfo row (nth_error_In _ _ Er)) as [r [Hrr Hri]].
     rewrite (rs_by_name _ _ _ _ _ Hs n row r Er Hrr). cbn [se_name se_ref].
     rewrite (name_idx3_drop4 sn (S n) H3), nat_to_str_py_int, nat_to_str_py_val.
-    unfold rt_info. destruct (ref_info r) as [i|]; [|congruence].
-    eexists st, _. split; [reflexivity|exact Hs].
+    unfold rt_info. destruct (ref_info r) as [i|] eqn:Ei; [|congruence].
+    exists st, (opt_eqb (i_dt i) (Some (unbs "varies"))). split; [reflexivity|]. split; [exact Hs|].
+    intros lrow li Hn' Hr' Hd'. cbn [pred] in Hn'. rewrite Er in Hn'. injection Hn' as <-.
+    rewrite Hrr in Hr'. injection Hr' as ->. cbn [ref_info] in Ei. injection Ei as <-.
+    rewrite Hd'. apply opt_eqb_some_refl.
 Qed.
+
 
 (* --- typed conditions on texts --- *)
 
@@ -991,8 +1020,9 @@ Proof.
     destruct (parse_structure_dt t inf D rows Ei Hl (proj1 (proj2 Hg)) (good_struct_resolved D rows Hg)) as [st [Hp [Hinfo Hs]]].
     pose proof (field_ctor_ref (name_idx sn (S i)) (SSeqDt inf) st fv Hun Hp) as Hc.
     cbn [st_dt] in Hc. rewrite Hinfo, Ei in Hc.
-    apply (parse_field_complex t e leaf _ _ _ fv _ D rows st Hc M12 N12 (proj1 Hg) Hs (good_struct_resolved D rows Hg)).
-    now apply comps_ok_of_text.
+    destruct (parse_field_complex t e leaf r _ _ fv _ D rows st Hc M12 N12 (proj1 Hg) Hs (good_struct_resolved D rows Hg))
+      as [x [Hx1 [Hx2 [Hx3 _]]]]; [now apply comps_ok_of_text|].
+    exists x. auto.
 Qed.
 
 End OneSeg.
@@ -1042,7 +1072,7 @@ Proof.
   assert (Hinfo : forall row, In row srows -> exists r, row_ref t row = Some r /\ ref_info r <> None).
   { intros row Hx. destruct (Hrows row Hx) as [fr [E' K]]. exists fr. split; [exact E'|].
     destruct fr; try contradiction; discriminate. }
-  destruct (mk_segment_table sn srows H3 Hup Hz Hl Hc Hres Hinfo) as [st [inf [Hmk Hs]]].
+  destruct (mk_segment_table sn srows H3 Hup Hz Hl Hc Hres Hinfo) as [st [inf [Hmk [Hs _]]]].
   destruct (seg_roundtrip t e leaf Hec sn H3 Hup Hmsh st inf (length srows) fs Hmk (rs_ordered _ _ _ _ _ Hs))
     as [s [gs [Hp [Hch [Hg He]]]]]; auto.
   - intros i Hi. now apply (rows_structure_known t sn FIE srows st i Hs Hres).
@@ -1149,6 +1179,819 @@ Proof.
     split. { unfold base_field. cbv zeta. now rewrite Sc. }
     split. { unfold unnamed_comp. cbv zeta. now rewrite Ss. }
     split; [reflexivity|exact He].
+Qed.
+
+Lemma vcomps_fix_leaf x : delim_free e x -> leaf (Some (unbs "ST")) x = Ok x -> vcomps_fix e leaf x.
+Proof. intros Hd Hl. exact (comps_fix_leaf (unbs "ST") x Hd Hl). Qed.
+
+(* the same for a field whose datatype is varies (OBX-5, RDT-1, QPD-3 ...): the value is an ST *)
+Theorem field_position_varies sn srows i row inf x :
+  length sn = 3 -> upper sn = sn -> streqb sn (unbs "MSH") = false -> valid_z_segment_name sn = false ->
+  slookup sn (t_segments t) = Some (SSeqIn false srows None) ->
+  rows_contiguous sn FIE 1 srows = true ->
+  (forall row, In row srows -> field_row_ok row) ->
+  1 <= i -> nth_error srows (pred i) = Some row ->
+  row_ref t row = Some (SLeaf inf) -> i_dt inf = Some (unbs "varies") ->
+  is_blank x = false -> delim_free e x -> leaf (Some (unbs "ST")) x = Ok x ->
+  let text := sn ++ repeat (fsep e) i ++ x in
+  exists s f c sb,
+    parse_segment t TOLERANT e leaf text None = Ok s /\
+    s_children s = [f] /\ f_name f = Some (name_idx sn i) /\ f_dt f = Some (unbs "varies") /\
+    f_children f = [c] /\ c_name c = Some (name_idx VARIES 1) /\
+    c_children c = [sb] /\ sc_value sb = x /\
+    enc_segment t e s false = Ok text.
+Proof.
+  intros H3 Hup Hmsh Hz Hl Hc Hrows Hi Hn Hr Hdt Hx Hd Hlf text.
+  destruct i as [|k]; [lia|]. cbn [pred] in Hn.
+  assert (E : text = bjoin (fsep e) (sn :: repeat [] k ++ [x])) by (subst text; now rewrite bjoin_position).
+  assert (Hlen : length (repeat (@nil byte) k ++ [x]) <= length srows).
+  { rewrite app_length, repeat_length. cbn [length].
+    assert (k < length srows) by (apply nth_error_Some; congruence). lia. }
+  destruct (leaf_splits e x Hd) as [Sr [Sc Ss]]. pose proof Hd as [Hf0 [Hc0 [Hr0 [Hs0 Hcr0]]]].
+  destruct (seg_table_roundtrip sn srows (repeat [] k ++ [x]) H3 Hup Hmsh Hz Hl Hc Hrows)
+    as [s [gs [Hp [Hch [Hg He]]]]]; auto.
+  - apply no_trail_last, not_blank_ne, Hx.
+  - intros j f Hjf. rewrite indexed_repeat_app in Hjf. apply in_app_or in Hjf. destruct Hjf as [Hjf|[Hjf|[]]].
+    + apply in_indexed_repeat in Hjf. subst f. repeat split; auto.
+    + injection Hjf as <- <-. split; [exact Hf0|]. split; [exact Hcr0|]. right. split; [exact Hx|].
+      exists row, (SLeaf inf). split; [exact Hn|]. split; [exact Hr|]. rewrite Sr. constructor; [|constructor].
+      cbn [rep_text_ok]. rewrite Hdt. right. split; [reflexivity|]. now apply vcomps_fix_leaf.
+  - destruct (Forall2_position (fun p g => fields_of srows sn (fst p) (snd p) g) k x gs) as [g [Hgx Hcat]]; auto.
+    { intros j g [[_ ->]|[Hbl _]]; [reflexivity|discriminate]. }
+    cbn [fst snd] in Hgx. destruct Hgx as [[-> _]|[_ [row' [fr [fv [Hn' [Hr' HF]]]]]]]; [discriminate|].
+    cbn [pred] in Hn'. rewrite Hn in Hn'. injection Hn' as <-. rewrite Hr in Hr'. injection Hr' as <-.
+    rewrite Sr in HF.
+    destruct g as [|f [|f2 g']]; [inversion HF| |inversion HF as [|? ? ? ? _ HF']; inversion HF'].
+    inversion HF as [|? ? ? ? [Hpf [Hnm Hef]] _]. clear HF.
+    assert (Hun : upper (name_idx sn (S k)) = name_idx sn (S k)) by now rewrite name_idx_upper, Hup.
+    pose proof (field_ctor_ref (name_idx sn (S k)) (SLeaf inf) _ fv Hun (leaf_structure t inf)) as Hct.
+    cbn [st_dt st_info] in Hct. rewrite Hdt in Hct.
+    rewrite (parse_field_varies t e leaf Hst Hvar _ _ _ fv _ _ Hct (sn_is_msh12 sn H3 Hup Hmsh (S k)) eq_refl) in Hpf.
+    2:{ now apply vcomps_fix_leaf. }
+    injection Hpf as <-.
+    eexists s, _, (varies_comp e 1 x), (st_sub (unbs "ST") x).
+    rewrite E. split; [exact Hp|]. split; [now rewrite Hch, Hcat|]. split; [reflexivity|]. split; [reflexivity|].
+    split. { unfold var_field. cbn [f_children]. now rewrite Sc. }
+    split; [reflexivity|].
+    split. { unfold varies_comp. cbn [c_children]. now rewrite Ss. }
+    split; [reflexivity|exact He].
+Qed.
+
+(* --- beyond the last defined field of a segment whose last field is varies (any index) --- *)
+
+Lemma not_z_field_name sn i : length sn = 3 -> upper sn = sn -> valid_z_segment_name sn = false ->
+  valid_z_field_name (name_idx sn i) = false.
+Proof.
+  destruct sn as [|a [|b [|c [|]]]]; try discriminate. intros _ Hu Hz.
+  unfold valid_z_segment_name in Hz. rewrite Hu in Hz. cbn [length Nat.eqb] in Hz. rewrite andb_true_r in Hz.
+  unfold name_idx. cbn [app unbs valid_z_field_name].
+  assert (Ha : bupper a = a) by (cbn [upper map] in Hu; congruence).
+  assert (beqb a "z" = false) as ->.
+  { destruct (beqb_spec a "z") as [->|]; [discriminate|reflexivity]. }
+  rewrite Hz. now destruct (nat_to_str i).
+Qed.
+
+Lemma field_rt_beyond sn srows sst i r :
+  length sn = 3 -> upper sn = sn -> streqb sn (unbs "MSH") = false -> valid_z_segment_name sn = false ->
+  rows_structure t sn FIE srows sst ->
+  slookup (name_idx sn i) (t_fields t) = None -> length srows < i ->
+  vcomps_fix e leaf r ->
+  field_rt t e leaf sn sst true i r (var_field e (name_idx sn i) (Some st_var) r).
+Proof.
+  intros H3 Hup Hmsh Hz Hs Hno Hi Hr. unfold field_rt.
+  assert (Hm : has_map (Some sst) = true) by (unfold has_map; now rewrite (rs_ordered _ _ _ _ _ Hs)).
+  rewrite Hm. unfold ref_in. rewrite (rs_ordered _ _ _ _ _ Hs), (rs_beyond _ _ _ _ _ Hs i Hi). cbn [option_map].
+  assert (Hun : upper (name_idx sn i) = name_idx sn i) by now rewrite name_idx_upper, Hup.
+  assert (Hct : field_ctor t (Some (name_idx sn i)) None true =
+                Ok (mk_field_rec (Some (name_idx sn i)) (Some (unbs "varies")) (Some st_var) [])).
+  { unfold field_ctor. unfold mk_field at 1. cbn [is_strict andb]. rewrite is_varies_none. cbn [andb].
+    unfold structure_for at 1, load_reference. cbn [table_of]. rewrite Hun, Hno.
+    rewrite (not_z_field_name sn i H3 Hup Hz). cbn [bind].
+    unfold mk_field. cbn [is_strict andb]. rewrite is_varies_none. cbn [andb]. rewrite Hun. reflexivity. }
+  split; [apply (parse_field_varies t e leaf Hst Hvar _ _ _ true _ _ Hct (sn_is_msh12 sn H3 Hup Hmsh i) eq_refl Hr)|].
+  split; [reflexivity|]. apply enc_field_varies. apply (sn_not_msh12 sn H3 Hup Hmsh).
+Qed.
+
+Theorem open_ended_position sn srows lrow li i x :
+  length sn = 3 -> upper sn = sn -> streqb sn (unbs "MSH") = false -> valid_z_segment_name sn = false ->
+  slookup sn (t_segments t) = Some (SSeqIn false srows None) ->
+  rows_contiguous sn FIE 1 srows = true ->
+  (forall row, In row srows -> field_row_ok row) ->
+  (* the last defined field is of type varies *)
+  nth_error srows (pred (length srows)) = Some lrow -> row_ref t lrow = Some (SLeaf li) ->
+  i_dt li = Some (unbs "varies") ->
+  (* an index beyond the defined fields, whose name is not in the fields table *)
+  length srows < i -> slookup (name_idx sn i) (t_fields t) = None ->
+  is_blank x = false -> delim_free e x -> leaf (Some (unbs "ST")) x = Ok x ->
+  let text := sn ++ repeat (fsep e) i ++ x in
+  exists s f c sb,
+    parse_segment t TOLERANT e leaf text None = Ok s /\
+    s_children s = [f] /\ f_name f = Some (name_idx sn i) /\ f_dt f = Some (unbs "varies") /\
+    f_children f = [c] /\ c_name c = Some (name_idx VARIES 1) /\
+    c_children c = [sb] /\ sc_value sb = x /\
+    enc_segment t e s false = Ok text.
+Proof.
+  intros H3 Hup Hmsh Hz Hl Hc Hrows Hlast Hlr Hld Hi Hno Hx Hd Hlf text.
+  destruct i as [|k]; [lia|].
+  assert (E : text = bjoin (fsep e) (sn :: repeat [] k ++ [x])) by (subst text; now rewrite bjoin_position).
+  destruct (leaf_splits e x Hd) as [Sr [Sc Ss]]. pose proof Hd as [Hf0 [Hc0 [Hr0 [Hs0 Hcr0]]]].
+  assert (Hres : rows_resolved t srows).
+  { intros y Hy Ey. destruct (Hrows y Hy) as [fr [E' _]]. congruence. }
+  assert (Hinfo : forall row, In row srows -> exists r, row_ref t row = Some r /\ ref_info r <> None).
+  { intros row Hy. destruct (Hrows row Hy) as [fr [E' K]]. exists fr. split; [exact E'|].
+    destruct fr; try contradiction; discriminate. }
+  destruct (mk_segment_table sn srows H3 Hup Hz Hl Hc Hres Hinfo) as [st [inf [Hmk [Hs Hinf]]]].
+  specialize (Hinf lrow li Hlast Hlr Hld). subst inf.
+  destruct (seg_roundtrip t e leaf Hec sn H3 Hup Hmsh st true (length srows) (repeat [] k ++ [x]) Hmk (rs_ordered _ _ _ _ _ Hs))
+    as [s [gs [Hp [Hch [Hg He]]]]]; auto.
+  - intros j Hj. now apply (rows_structure_known t sn FIE srows st j Hs Hres).
+  - apply no_trail_last, not_blank_ne, Hx.
+  - intros j f Hjf. rewrite indexed_repeat_app in Hjf. apply in_app_or in Hjf. destruct Hjf as [Hjf|[Hjf|[]]].
+    + apply in_indexed_repeat in Hjf. subst f. repeat split; auto.
+    + injection Hjf as <- <-. split; [exact Hf0|]. split; [exact Hcr0|]. right. split; [exact Hx|].
+      rewrite Sr. constructor; [|constructor]. eexists.
+      apply (field_rt_beyond sn srows st (S k) x H3 Hup Hmsh Hz Hs Hno Hi). now apply vcomps_fix_leaf.
+  - destruct (Forall2_position (fun p g => groups_rel t e leaf sn st true (fst p) (snd p) g) k x gs) as [g [Hgx Hcat]]; auto.
+    { intros j g [[_ ->]|[Hbl _]]; [reflexivity|discriminate]. }
+    cbn [fst snd] in Hgx. destruct Hgx as [[-> _]|[_ HF]]; [discriminate|].
+    rewrite Sr in HF.
+    destruct g as [|f [|f2 g']]; [inversion HF| |inversion HF as [|? ? ? ? _ HF']; inversion HF'].
+    inversion HF as [|? ? ? ? [Hpf [Hnm Hef]] _]. clear HF.
+    destruct (field_rt_beyond sn srows st (S k) x H3 Hup Hmsh Hz Hs Hno Hi (vcomps_fix_leaf x Hd Hlf)) as [Hpf' _].
+    rewrite Hpf in Hpf'. injection Hpf' as ->.
+    eexists s, _, (varies_comp e 1 x), (st_sub (unbs "ST") x).
+    rewrite E. split; [exact Hp|]. split; [now rewrite Hch, Hcat|]. split; [reflexivity|]. split; [reflexivity|].
+    split. { unfold var_field. cbn [f_children]. now rewrite Sc. }
+    split; [reflexivity|].
+    split. { unfold varies_comp. cbn [c_children]. now rewrite Ss. }
+    split; [reflexivity|exact He].
+Qed.
+
+(* --- a subcomponent of a component of a struct-typed field --- *)
+
+Lemma repeat_sep_join (c : byte) n z : repeat c n ++ z = bjoin c (repeat [] n ++ [z]).
+Proof.
+  destruct n as [|k]; [reflexivity|].
+  change (repeat [] (S k) ++ [z]) with ([] :: repeat [] k ++ [z]). now rewrite bjoin_position.
+Qed.
+
+Lemma bmem_app' c (x y : str) : bmem c (x ++ y) = bmem c x || bmem c y.
+Proof. unfold bmem, mem. apply existsb_app. Qed.
+
+Lemma bmem_repeat d c n : d <> c -> bmem d (repeat c n) = false.
+Proof.
+  intros H. induction n as [|n IH]; [reflexivity|]. cbn [repeat]. unfold bmem, mem in *. cbn [existsb].
+  rewrite IH, orb_false_r. destruct (beqb_spec c d); [congruence|reflexivity].
+Qed.
+
+Lemma bsplit_position c n z : bmem c z = false -> bsplit c (repeat c n ++ z) = repeat [] n ++ [z].
+Proof.
+  intros H. rewrite repeat_sep_join. apply bsplit_bjoin.
+  - destruct n; discriminate.
+  - rewrite forallb_app. cbn [forallb]. rewrite (nosep_of_bmem c z H), andb_true_r.
+    rewrite forallb_forall. intros y Hy. apply repeat_spec in Hy. now subst.
+Qed.
+
+Lemma not_blank_app_r (a x : str) : is_blank x = false -> is_blank (a ++ x) = false.
+Proof. intros H. now rewrite is_blank_app, H, andb_false_r. Qed.
+
+Theorem subcomponent_position sn srows i row inf D rows j crow ci D2 rows2 k x :
+  length sn = 3 -> upper sn = sn -> streqb sn (unbs "MSH") = false -> valid_z_segment_name sn = false ->
+  slookup sn (t_segments t) = Some (SSeqIn false srows None) ->
+  rows_contiguous sn FIE 1 srows = true ->
+  (forall row, In row srows -> field_row_ok row) ->
+  (* field i has the struct datatype D *)
+  1 <= i -> nth_error srows (pred i) = Some row ->
+  row_ref t row = Some (SSeqDt inf) -> i_dt inf = Some D -> slookup D (t_structs t) = Some rows ->
+  (* component j of D has the flat struct datatype D2 *)
+  1 <= j -> nth_error rows (pred j) = Some crow ->
+  row_ref t crow = Some (SSeqDt ci) -> i_dt ci = Some D2 -> slookup D2 (t_structs t) = Some rows2 ->
+  (* subcomponent k of D2 *)
+  1 <= k <= length rows2 ->
+  is_blank x = false -> delim_free e x -> leaf (sub_dt t rows2 k) x = Ok x ->
+  let text := sn ++ repeat (fsep e) i ++ repeat (csep e) (pred j) ++ repeat (ssep e) (pred k) ++ x in
+  exists s f c sb,
+    parse_segment t TOLERANT e leaf text None = Ok s /\
+    s_children s = [f] /\ f_name f = Some (name_idx sn i) /\ f_children f = [c] /\
+    c_name c = Some (name_idx D j) /\ c_children c = [sb] /\
+    sc_name sb = Some (name_idx D2 k) /\ sc_value sb = x /\
+    enc_segment t e s false = Ok text.
+Proof.
+  intros H3 Hup Hmsh Hz Hl Hc Hrows Hi Hn Hr Hdt HlD Hj Hnc Hrc Hdc HlD2 Hk Hx Hd Hlf text.
+  destruct i as [|i0]; [lia|]. destruct j as [|j0]; [lia|]. destruct k as [|k0]; [lia|]. cbn [pred] in *.
+  destruct (seps_distinct e Hec) as [Nfc [Nfr [Nfs [Ncr [Ncs Nrs]]]]].
+  pose proof Hd as [Xf [Xc [Xr [Xs Xcr]]]].
+  set (z := repeat (ssep e) k0 ++ x). set (y := repeat (csep e) j0 ++ z).
+  (* the row facts *)
+  destruct (Hrows row (nth_error_In _ _ Hn)) as [fr [Hr' HK]]. rewrite Hr in Hr'. injection Hr' as <-.
+  destruct HK as [D' [rows' [Hdt' [HlD' Hg]]]]. rewrite Hdt in Hdt'. injection Hdt' as <-.
+  rewrite HlD in HlD'. injection HlD' as <-.
+  destruct Hg as [HD [HcD HrowsD]].
+  destruct (HrowsD crow (nth_error_In _ _ Hnc)) as [[ci' [b' [E' _]]]|[ci' [D2' [rows2' [E' [Ed' [El' [HD2 Hflat]]]]]]]];
+    rewrite Hrc in E'; [discriminate|]. injection E' as <-. rewrite Hdc in Ed'. injection Ed' as <-.
+  rewrite HlD2 in El'. injection El' as <-.
+  (* characters of z and y *)
+  assert (Zb : is_blank z = false) by (apply not_blank_app_r, Hx).
+  assert (Yb : is_blank y = false) by (apply not_blank_app_r, Zb).
+  assert (Zfree : forall d, d <> ssep e -> bmem d x = false -> bmem d z = false).
+  { intros d Hd1 Hd2. unfold z. now rewrite bmem_app', (bmem_repeat d (ssep e) k0 Hd1), Hd2. }
+  assert (Yfree : forall d, d <> ssep e -> d <> csep e -> bmem d x = false -> bmem d y = false).
+  { intros d Hd1 Hd2 Hd3. unfold y. now rewrite bmem_app', (bmem_repeat d (csep e) j0 Hd2), (Zfree d Hd1 Hd3). }
+  assert (Ycr : bmem CR y = false).
+  { apply Yfree; auto; apply (sep_not_cr e Hec); cbn; tauto. }
+  assert (Sy : bsplit (rsep e) y = [y]) by (apply bsplit_nosep, nosep_of_bmem, Yfree; auto).
+  assert (Cy : bsplit (csep e) y = repeat [] j0 ++ [z]) by (apply bsplit_position, Zfree; auto).
+  assert (Sz : bsplit (ssep e) z = repeat [] k0 ++ [x]) by (apply bsplit_position; auto).
+  (* typed conditions *)
+  assert (Hsub : subs_ok t e leaf rows2 z).
+  { unfold subs_ok. cbv zeta. rewrite Sz. split; [apply no_trail_last, not_blank_ne, Hx|].
+    split; [rewrite app_length, repeat_length; cbn [length]; lia|].
+    intros k p Hkp. rewrite indexed_repeat_app in Hkp. apply in_app_or in Hkp. destruct Hkp as [Hkp|[Hkp|[]]].
+    - apply in_indexed_repeat in Hkp. now left.
+    - injection Hkp as <- <-. right. split; assumption. }
+  assert (Hcomps : tcomps_ok rows y).
+  { right. cbv zeta. rewrite Cy. split; [apply no_trail_last, not_blank_ne, Zb|].
+    split. { rewrite app_length, repeat_length. cbn [length].
+             assert (j0 < length rows) by (apply nth_error_Some; congruence). lia. }
+    intros j' s' Hjs. rewrite indexed_repeat_app in Hjs. apply in_app_or in Hjs. destruct Hjs as [Hjs|[Hjs|[]]].
+    - apply in_indexed_repeat in Hjs. now left.
+    - injection Hjs as <- <-. right. split; [exact Zb|]. exists crow. split; [exact Hnc|].
+      unfold comp_text_ok. now rewrite Hrc, Hdc, HlD2. }
+  assert (E : text = bjoin (fsep e) (sn :: repeat [] i0 ++ [y])).
+  { subst text. rewrite bjoin_position. unfold y, z. reflexivity. }
+  assert (Hlen : length (repeat (@nil byte) i0 ++ [y]) <= length srows).
+  { rewrite app_length, repeat_length. cbn [length].
+    assert (i0 < length srows) by (apply nth_error_Some; congruence). lia. }
+  destruct (seg_table_roundtrip sn srows (repeat [] i0 ++ [y]) H3 Hup Hmsh Hz Hl Hc Hrows)
+    as [s [gs [Hp [Hch [Hgs He]]]]]; auto.
+  - apply no_trail_last, not_blank_ne, Yb.
+  - intros j' f' Hjf. rewrite indexed_repeat_app in Hjf. apply in_app_or in Hjf. destruct Hjf as [Hjf|[Hjf|[]]].
+    + apply in_indexed_repeat in Hjf. subst f'. repeat split; auto.
+    + injection Hjf as <- <-. split; [apply Yfree; auto|]. split; [exact Ycr|]. right. split; [exact Yb|].
+      exists row, (SSeqDt inf). split; [exact Hn|]. split; [exact Hr|]. rewrite Sy. constructor; [|constructor].
+      cbn [rep_text_ok]. now rewrite Hdt, HlD.
+  - destruct (Forall2_position (fun p g => fields_of srows sn (fst p) (snd p) g) i0 y gs) as [g [Hgx Hcat]]; auto.
+    { intros j' g' [[_ ->]|[Hbl _]]; [reflexivity|discriminate]. }
+    cbn [fst snd] in Hgx. destruct Hgx as [[Ey _]|[_ [row' [fr [fv [Hn' [Hr' HF]]]]]]].
+    { rewrite Ey in Yb. discriminate. }
+    cbn [pred] in Hn'. rewrite Hn in Hn'. injection Hn' as <-. rewrite Hr in Hr'. injection Hr' as <-.
+    rewrite Sy in HF.
+    destruct g as [|f [|f2 g']]; [inversion HF| |inversion HF as [|? ? ? ? _ HF']; inversion HF'].
+    inversion HF as [|? ? ? ? [Hpf [Hnm Hef]] _]. clear HF.
+    (* the field object, explicitly *)
+    assert (Hun : upper (name_idx sn (S i0)) = name_idx sn (S i0)) by now rewrite name_idx_upper, Hup.
+    destruct (parse_structure_dt t inf D rows Hdt HlD HcD (good_struct_resolved D rows (conj HD (conj HcD HrowsD))))
+      as [st [Hps [Hinfo Hs]]].
+    pose proof (field_ctor_ref (name_idx sn (S i0)) (SSeqDt inf) st fv Hun Hps) as Hct.
+    cbn [st_dt] in Hct. rewrite Hinfo, Hdt in Hct.
+    destruct (parse_field_complex t e leaf y _ _ fv _ D rows st Hct (sn_is_msh12 sn H3 Hup Hmsh (S i0))
+                (sn_not_msh12 sn H3 Hup Hmsh (S i0)) HD Hs (good_struct_resolved D rows (conj HD (conj HcD HrowsD))))
+      as [f' [Hpf' [_ [_ Hkids]]]].
+    { exact (comps_ok_of_text D rows st y (conj HD (conj HcD HrowsD)) Hs Hcomps). }
+    rewrite Hpf in Hpf'. injection Hpf' as <-.
+    destruct Hkids as [cgs [Hfc HR]]. { apply not_blank_ne, Yb. }
+    rewrite Cy in HR.
+    destruct (Forall2_position (comp_group_rel t e leaf D st) j0 z cgs) as [cg [Hcg Hccat]]; auto.
+    { intros j' g' [[_ ->]|[Hbl _]]; [reflexivity|discriminate]. }
+    unfold comp_group_rel in Hcg. cbn [fst snd] in Hcg. destruct Hcg as [[Ez _]|[_ [c [-> [Hpc [Hcn _]]]]]].
+    { rewrite Ez in Zb. discriminate. }
+    (* the component object, explicitly *)
+    destruct (rows_structure_ref_in t D CMP rows st j0 crow _ Hs Hnc Hrc) as [_ Href]. rewrite Href in Hpc.
+    destruct (parse_structure_dt t ci D2 rows2 Hdc HlD2 (proj1 Hflat) (flat_rows_resolved t D2 rows2 Hflat))
+      as [st2 [Hps2 [Hinfo2 Hs2]]].
+    rewrite (parse_component_complex t e leaf D (S j0) ci D2 rows2 st2 z HD HD2 Hdc Hps2 Hinfo2 Hs2 Hflat Hsub) in Hpc.
+    injection Hpc as <-.
+    exists s, f, (complex_comp t e (name_idx D (S j0)) D2 rows2 st2 z), (named_sub t D2 rows2 (S k0) x).
+    rewrite E. split; [exact Hp|]. split; [now rewrite Hch, Hcat|]. split; [exact Hnm|].
+    split; [now rewrite Hfc, Hccat|]. split; [reflexivity|].
+    split.
+    { unfold complex_comp, sub_groups. cbn [c_children]. rewrite Sz, indexed_repeat_app, map_app, concat_app.
+      cbn [map concat fst snd]. unfold sub_group at 2. rewrite Hx. rewrite app_nil_r.
+      assert (Z0 : concat (map (fun kp : nat * str => sub_group t D2 rows2 (fst kp) (snd kp)) (indexed (repeat [] k0))) = []).
+      { apply concat_nil_Forall. rewrite Forall_map, Forall_forall. intros [k' p'] Hkp.
+        apply in_indexed_repeat in Hkp. subst p'. reflexivity. }
+      exact (f_equal (fun l => l ++ [named_sub t D2 rows2 (S k0) x]) Z0). }
+    split; [reflexivity|]. split; [reflexivity|exact He].
+Qed.
+
+
+(* --- a base-typed component of a struct-typed field --- *)
+Theorem component_position sn srows i row inf D rows j crow ci b x :
+  length sn = 3 -> upper sn = sn -> streqb sn (unbs "MSH") = false -> valid_z_segment_name sn = false ->
+  slookup sn (t_segments t) = Some (SSeqIn false srows None) ->
+  rows_contiguous sn FIE 1 srows = true ->
+  (forall row, In row srows -> field_row_ok row) ->
+  1 <= i -> nth_error srows (pred i) = Some row ->
+  row_ref t row = Some (SSeqDt inf) -> i_dt inf = Some D -> slookup D (t_structs t) = Some rows ->
+  1 <= j -> nth_error rows (pred j) = Some crow ->
+  row_ref t crow = Some (SLeaf ci) -> i_dt ci = Some b ->
+  is_blank x = false -> delim_free e x -> leaf (Some b) x = Ok x ->
+  let text := sn ++ repeat (fsep e) i ++ repeat (csep e) (pred j) ++ x in
+  exists s f c sb,
+    parse_segment t TOLERANT e leaf text None = Ok s /\
+    s_children s = [f] /\ f_name f = Some (name_idx sn i) /\ f_children f = [c] /\
+    c_name c = Some (name_idx D j) /\ c_children c = [sb] /\ sc_value sb = x /\
+    enc_segment t e s false = Ok text.
+Proof.
+  intros H3 Hup Hmsh Hz Hl Hc Hrows Hi Hn Hr Hdt HlD Hj Hnc Hrc Hdc Hx Hd Hlf text.
+  destruct i as [|i0]; [lia|]. destruct j as [|j0]; [lia|]. cbn [pred] in *.
+  destruct (seps_distinct e Hec) as [Nfc [Nfr [Nfs [Ncr [Ncs Nrs]]]]].
+  pose proof Hd as [Xf [Xc [Xr [Xs Xcr]]]].
+  set (y := repeat (csep e) j0 ++ x).
+  destruct (Hrows row (nth_error_In _ _ Hn)) as [fr [Hr' HK]]. rewrite Hr in Hr'. injection Hr' as <-.
+  destruct HK as [D' [rows' [Hdt' [HlD' Hg]]]]. rewrite Hdt in Hdt'. injection Hdt' as <-.
+  rewrite HlD in HlD'. injection HlD' as <-.
+  destruct Hg as [HD [HcD HrowsD]].
+  destruct (HrowsD crow (nth_error_In _ _ Hnc)) as [[ci' [b' [E' [Eb' Hb]]]]|[ci' [D2' [rows2' [E' _]]]]];
+    rewrite Hrc in E'; [|discriminate]. injection E' as <-. rewrite Hdc in Eb'. injection Eb' as <-.
+  assert (Yb : is_blank y = false) by (apply not_blank_app_r, Hx).
+  assert (Yfree : forall d, d <> csep e -> bmem d x = false -> bmem d y = false).
+  { intros d Hd2 Hd3. unfold y. now rewrite bmem_app', (bmem_repeat d (csep e) j0 Hd2), Hd3. }
+  assert (Ycr : bmem CR y = false) by (apply Yfree; auto; apply (sep_not_cr e Hec); cbn; tauto).
+  assert (Sy : bsplit (rsep e) y = [y]) by (apply bsplit_nosep, nosep_of_bmem, Yfree; auto).
+  assert (Cy : bsplit (csep e) y = repeat [] j0 ++ [x]) by (apply bsplit_position; auto).
+  assert (Sx : bsplit (ssep e) x = [x]) by (apply bsplit_nosep, nosep_of_bmem, Xs).
+  assert (Hsub : subs_fix e leaf b x).
+  { unfold subs_fix. rewrite Sx. constructor; [now right|constructor]. }
+  assert (Hcomps : tcomps_ok rows y).
+  { right. cbv zeta. rewrite Cy. split; [apply no_trail_last, not_blank_ne, Hx|].
+    split. { rewrite app_length, repeat_length. cbn [length].
+             assert (j0 < length rows) by (apply nth_error_Some; congruence). lia. }
+    intros j' s' Hjs. rewrite indexed_repeat_app in Hjs. apply in_app_or in Hjs. destruct Hjs as [Hjs|[Hjs|[]]].
+    - apply in_indexed_repeat in Hjs. now left.
+    - injection Hjs as <- <-. right. split; [exact Hx|]. exists crow. split; [exact Hnc|].
+      unfold comp_text_ok. now rewrite Hrc, Hdc. }
+  assert (E : text = bjoin (fsep e) (sn :: repeat [] i0 ++ [y])).
+  { subst text. rewrite bjoin_position. unfold y. reflexivity. }
+  assert (Hlen : length (repeat (@nil byte) i0 ++ [y]) <= length srows).
+  { rewrite app_length, repeat_length. cbn [length].
+    assert (i0 < length srows) by (apply nth_error_Some; congruence). lia. }
+  destruct (seg_table_roundtrip sn srows (repeat [] i0 ++ [y]) H3 Hup Hmsh Hz Hl Hc Hrows)
+    as [s [gs [Hp [Hch [Hgs He]]]]]; auto.
+  - apply no_trail_last, not_blank_ne, Yb.
+  - intros j' f' Hjf. rewrite indexed_repeat_app in Hjf. apply in_app_or in Hjf. destruct Hjf as [Hjf|[Hjf|[]]].
+    + apply in_indexed_repeat in Hjf. subst f'. repeat split; auto.
+    + injection Hjf as <- <-. split; [apply Yfree; auto|]. split; [exact Ycr|]. right. split; [exact Yb|].
+      exists row, (SSeqDt inf). split; [exact Hn|]. split; [exact Hr|]. rewrite Sy. constructor; [|constructor].
+      cbn [rep_text_ok]. now rewrite Hdt, HlD.
+  - destruct (Forall2_position (fun p g => fields_of srows sn (fst p) (snd p) g) i0 y gs) as [g [Hgx Hcat]]; auto.
+    { intros j' g' [[_ ->]|[Hbl _]]; [reflexivity|discriminate]. }
+    cbn [fst snd] in Hgx. destruct Hgx as [[Ey _]|[_ [row' [fr [fv [Hn' [Hr' HF]]]]]]].
+    { rewrite Ey in Yb. discriminate. }
+    cbn [pred] in Hn'. rewrite Hn in Hn'. injection Hn' as <-. rewrite Hr in Hr'. injection Hr' as <-.
+    rewrite Sy in HF.
+    destruct g as [|f [|f2 g']]; [inversion HF| |inversion HF as [|? ? ? ? _ HF']; inversion HF'].
+    inversion HF as [|? ? ? ? [Hpf [Hnm Hef]] _]. clear HF.
+    assert (Hun : upper (name_idx sn (S i0)) = name_idx sn (S i0)) by now rewrite name_idx_upper, Hup.
+    destruct (parse_structure_dt t inf D rows Hdt HlD HcD (good_struct_resolved D rows (conj HD (conj HcD HrowsD))))
+      as [st [Hps [Hinfo Hs]]].
+    pose proof (field_ctor_ref (name_idx sn (S i0)) (SSeqDt inf) st fv Hun Hps) as Hct.
+    cbn [st_dt] in Hct. rewrite Hinfo, Hdt in Hct.
+    destruct (parse_field_complex t e leaf y _ _ fv _ D rows st Hct (sn_is_msh12 sn H3 Hup Hmsh (S i0))
+                (sn_not_msh12 sn H3 Hup Hmsh (S i0)) HD Hs (good_struct_resolved D rows (conj HD (conj HcD HrowsD))))
+      as [f' [Hpf' [_ [_ Hkids]]]].
+    { exact (comps_ok_of_text D rows st y (conj HD (conj HcD HrowsD)) Hs Hcomps). }
+    rewrite Hpf in Hpf'. injection Hpf' as <-.
+    destruct Hkids as [cgs [Hfc HR]]. { apply not_blank_ne, Yb. }
+    rewrite Cy in HR.
+    destruct (Forall2_position (comp_group_rel t e leaf D st) j0 x cgs) as [cg [Hcg Hccat]]; auto.
+    { intros j' g' [[_ ->]|[Hbl _]]; [reflexivity|discriminate]. }
+    unfold comp_group_rel in Hcg. cbn [fst snd] in Hcg. destruct Hcg as [[Ez _]|[_ [c [-> [Hpc [Hcn _]]]]]].
+    { rewrite Ez in Hx. discriminate. }
+    destruct (rows_structure_ref_in t D CMP rows st j0 crow _ Hs Hnc Hrc) as [_ Href]. rewrite Href in Hpc.
+    rewrite (parse_component_leaf t e leaf Hvar D (S j0) ci b x HD Hdc Hb Hsub) in Hpc.
+    injection Hpc as <-.
+    eexists s, f, _, (st_sub b x).
+    rewrite E. split; [exact Hp|]. split; [now rewrite Hch, Hcat|]. split; [exact Hnm|].
+    split; [now rewrite Hfc, Hccat|]. split; [reflexivity|].
+    split. { unfold leaf_comp. cbv zeta. cbn [c_children]. now rewrite Sx. }
+    split; [reflexivity|exact He].
+Qed.
+
+(* ------------------------------------------------------------------ *)
+(* parse_field / parse_component on their own                           *)
+
+(* giving the table's reference explicitly or letting Field('<SEG>_i') look it up is the same *)
+Lemma parse_field_by_name text n fr fv : slookup (upper n) (t_fields t) = Some fr ->
+  parse_field t TOLERANT e leaf text (Some n) None fv = parse_field t TOLERANT e leaf text (Some n) (Some fr) fv.
+Proof.
+  intros H. rewrite !parse_field_unfold.
+  assert (E : field_ctor t (Some n) None fv = field_ctor t (Some n) (Some fr) fv).
+  { unfold field_ctor, mk_field. cbn [is_strict andb]. rewrite is_varies_none. cbn [andb].
+    unfold structure_for, load_reference. cbn [table_of]. rewrite H. reflexivity. }
+  now rewrite E.
+Qed.
+
+Theorem field_roundtrip sn srows i row fr fv r :
+  length sn = 3 -> upper sn = sn -> streqb sn (unbs "MSH") = false ->
+  rows_contiguous sn FIE 1 srows = true ->
+  (forall row, In row srows -> field_row_ok row) ->
+  1 <= i -> nth_error srows (pred i) = Some row -> row_ref t row = Some fr ->
+  rep_text_ok fr r ->
+  exists x, parse_field t TOLERANT e leaf r (Some (name_idx sn i)) (Some fr) fv = Ok x /\
+            f_name x = Some (name_idx sn i) /\ enc_field t e x = Ok r.
+Proof.
+  intros H3 Hup Hmsh Hc Hrows Hi Hn Hr Hok.
+  assert (Hres : rows_resolved t srows).
+  { intros x Hx E. destruct (Hrows x Hx) as [fr' [E' _]]. congruence. }
+  destruct (parse_children_structure t sn FIE srows (SSeqIn false srows None) None Hc Hres) as [st [_ [_ [_ Hs]]]].
+  destruct (field_rt_of_text sn H3 Hup Hmsh srows st Hs fv i row fr r Hn Hi Hr (Hrows row (nth_error_In _ _ Hn)) Hok)
+    as [x [Hp [Hnm He]]].
+  destruct i as [|i0]; [lia|]. cbn [pred] in Hn.
+  destruct (rows_structure_ref_in t sn FIE srows st i0 row fr Hs Hn Hr) as [Hm Href].
+  rewrite Hm, Href in Hp. exists x. auto.
+Qed.
+
+Theorem component_roundtrip D rows j crow s :
+  good_struct D rows -> 1 <= j -> nth_error rows (pred j) = Some crow -> comp_text_ok crow s ->
+  exists cref c, row_ref t crow = Some cref /\
+    parse_component t TOLERANT e leaf s (Some (name_idx D j)) None (Some cref) = Ok c /\
+    c_name c = Some (name_idx D j) /\ enc_comp t e c = s.
+Proof.
+  intros Hg Hj Hn Hok.
+  destruct (parse_children_structure t D CMP rows (SSeqIn false rows None) None (proj1 (proj2 Hg))
+              (good_struct_resolved D rows Hg)) as [st [_ [_ [_ Hs]]]].
+  destruct (comp_rt_of_row D rows st j crow s Hg Hs Hn Hj Hok) as [c [Hp [Hnm He]]].
+  destruct j as [|j0]; [lia|]. cbn [pred] in Hn.
+  destruct (row_ref t crow) as [cref|] eqn:Er; [|exfalso; exact (good_struct_resolved D rows Hg crow (nth_error_In _ _ Hn) Er)].
+  destruct (rows_structure_ref_in t D CMP rows st j0 crow cref Hs Hn Er) as [_ Href].
+  rewrite Href in Hp. exists cref, c. auto.
+Qed.
+
+(* ------------------------------------------------------------------ *)
+(* canonical VALUE TREES within the table's counts                      *)
+
+Definition leaf_at (dt : option str) (s : str) : Prop := s = [] \/ leaf dt s = Ok s.
+
+(* a component value (its subcomponent texts) against the struct row describing it *)
+Definition wt_comp (crow : srow) (c : vcomp) : Prop :=
+  match row_ref t crow with
+  | Some (SLeaf i) => match i_dt i with Some b => Forall (leaf_at (Some b)) c | None => False end
+  | Some (SSeqDt i) =>
+      match i_dt i with
+      | Some D2 => match slookup D2 (t_structs t) with
+                   | Some rows2 => length c <= length rows2 /\
+                                   forall k p, In (k, p) (indexed c) -> leaf_at (sub_dt t rows2 k) p
+                   | None => False
+                   end
+      | None => False
+      end
+  | _ => False
+  end.
+
+(* one repetition (its components) against the field's table reference *)
+Definition wt_rep (fr : sref) (vr : vrep) : Prop :=
+  match fr with
+  | SLeaf i =>
+      match i_dt i with
+      | Some b => (base (Some b) = true /\ Forall (Forall (leaf_at (Some b))) vr) \/
+                  (b = unbs "varies" /\ Forall (Forall (leaf_at (Some (unbs "ST")))) vr)
+      | None => False
+      end
+  | SSeqDt i =>
+      match i_dt i with
+      | Some D => match slookup D (t_structs t) with
+                  | Some rows => length vr <= length rows /\
+                                 forall j c, In (j, c) (indexed vr) ->
+                                   c = [] \/ exists crow, nth_error rows (pred j) = Some crow /\ wt_comp crow c
+                  | None => False
+                  end
+      | None => False
+      end
+  | _ => False
+  end.
+
+Definition wt_field (srows : list srow) (i : nat) (vf : vfield) : Prop :=
+  vf = [] \/ exists row fr, nth_error srows (pred i) = Some row /\ row_ref t row = Some fr /\ Forall (wt_rep fr) vf.
+
+Notation PT := (fun _ : str => True).
+
+Lemma indexed_map {A B} (g : A -> B) (l : list A) :
+  indexed (map g l) = map (fun p => (fst p, g (snd p))) (indexed l).
+Proof.
+  unfold indexed. rewrite map_length. generalize 1. induction l as [|x l IH]; intros n; [reflexivity|].
+  cbn [length seq combine map fst snd]. now rewrite IH.
+Qed.
+
+Lemma in_indexed_map {A B} (g : A -> B) (l : list A) i y :
+  In (i, y) (indexed (map g l)) -> exists x, y = g x /\ In (i, x) (indexed l).
+Proof.
+  rewrite indexed_map. intros H. apply in_map_iff in H. destruct H as [[i' x] [E H]].
+  cbn [fst snd] in E. injection E as -> <-. eauto.
+Qed.
+
+Lemma subs_fix_of_leaves b c : canon_comp e PT c -> Forall (leaf_at (Some b)) c -> subs_fix e leaf b (render_comp e c).
+Proof.
+  intros Hc Hl. unfold subs_fix. rewrite (split_comp e PT c Hc). apply Forall_or_one; [now left|exact Hl].
+Qed.
+
+Lemma comps_fix_of_leaves b vr : canon_rep e PT vr -> Forall (Forall (leaf_at (Some b))) vr ->
+  comps_fix e leaf b (render_rep e vr).
+Proof.
+  intros Hr Hl. unfold comps_fix. rewrite (split_rep e Hec PT vr Hr).
+  apply Forall_or_one.
+  - unfold subs_fix. cbn. constructor; [now left|constructor].
+  - rewrite Forall_map. destruct Hr as [_ Hcs]. rewrite Forall_forall in *. intros c Hc.
+    apply subs_fix_of_leaves; auto.
+Qed.
+
+Lemma in_indexed_in {A} (l : list A) i x : In (i, x) (indexed l) -> In x l.
+Proof. intros H. apply (in_map snd) in H. now rewrite indexed_snd in H. Qed.
+
+Lemma comp_text_of_value crow c : canon_comp e PT c -> c <> [] -> wt_comp crow c ->
+  comp_text_ok crow (render_comp e c).
+Proof.
+  intros Hc Hne Hw. unfold wt_comp in Hw. unfold comp_text_ok.
+  destruct (row_ref t crow) as [[i|i|? ? ?|]|]; try contradiction.
+  - destruct (i_dt i) as [b|]; [|contradiction]. now apply subs_fix_of_leaves.
+  - destruct (i_dt i) as [D2|]; [|contradiction]. destruct (slookup D2 (t_structs t)) as [rows2|]; [|contradiction].
+    destruct Hw as [Hlen Hl]. unfold subs_ok. cbv zeta. rewrite (split_comp e PT c Hc).
+    destruct c as [|p0 c0]; [congruence|]. cbn [or_one].
+    split; [exact (proj1 Hc)|]. split; [exact Hlen|].
+    intros k p Hkp. destruct (Hl k p Hkp) as [->|Hlf]; [now left|].
+    destruct Hc as [_ Hv]. rewrite Forall_forall in Hv. destruct (Hv p (in_indexed_in _ _ _ Hkp)) as [_ [->|[Hb _]]]; [now left|].
+    right. split; assumption.
+Qed.
+
+Lemma rep_text_of_value fr vr : canon_rep e PT vr -> wt_rep fr vr -> rep_text_ok fr (render_rep e vr).
+Proof.
+  intros Hr Hw. unfold wt_rep in Hw. unfold rep_text_ok.
+  destruct fr as [i|i|? ? ?|]; try contradiction.
+  - destruct (i_dt i) as [b|]; [|contradiction]. destruct Hw as [[Hb Hl]|[-> Hl]].
+    + left. split; [exact Hb|now apply comps_fix_of_leaves].
+    + right. split; [reflexivity|]. now apply comps_fix_of_leaves.
+  - destruct (i_dt i) as [D|]; [|contradiction]. destruct (slookup D (t_structs t)) as [rows|]; [|contradiction].
+    destruct Hw as [Hlen Hl]. unfold tcomps_ok. destruct vr as [|c0 vr0]; [now left|right]. cbv zeta.
+    rewrite (split_rep e Hec PT _ Hr). cbn [map or_one].
+    split; [exact (comps_no_trail e PT _ Hr)|]. split; [cbn [length] in *; now rewrite map_length|].
+    intros j s0 Hjs. change (render_comp e c0 :: map (render_comp e) vr0) with (map (render_comp e) (c0 :: vr0)) in Hjs.
+    apply in_indexed_map in Hjs. destruct Hjs as [c [-> Hjc]].
+    assert (Hcc : canon_comp e PT c).
+    { destruct Hr as [_ Hcs]. rewrite Forall_forall in Hcs. apply Hcs. exact (in_indexed_in _ _ _ Hjc). }
+    destruct (Hl j c Hjc) as [->|[crow [Hn Hwc]]]; [now left|].
+    destruct c as [|p0 c1]; [now left|right].
+    split; [apply (comp_nonblank e PT); [exact Hcc|discriminate]|].
+    exists crow. split; [exact Hn|]. apply comp_text_of_value; auto. discriminate.
+Qed.
+
+Lemma tfield_of_value srows i vf : canon_field e PT vf -> wt_field srows i vf ->
+  tfield_text srows i (render_field e vf).
+Proof.
+  intros Hf Hw. split; [exact (field_no_fsep e Hec PT vf Hf)|]. split; [exact (field_no_cr e Hec PT vf Hf)|].
+  destruct vf as [|r0 vf0]; [now left|right].
+  split; [apply (field_nonblank e PT); [exact Hf|discriminate]|].
+  destruct Hw as [E|[row [fr [Hn [Hr Hall]]]]]; [discriminate|].
+  exists row, fr. split; [exact Hn|]. split; [exact Hr|].
+  rewrite (split_field e Hec PT _ Hf). cbn [map or_one].
+  change (render_rep e r0 :: map (render_rep e) vf0) with (map (render_rep e) (r0 :: vf0)).
+  rewrite Forall_map. destruct Hf as [_ Hrs]. rewrite Forall_forall in *. intros vr Hvr.
+  apply rep_text_of_value; auto.
+Qed.
+
+Theorem seg_table_roundtrip_vt sn srows (vt : list vfield) :
+  length sn = 3 -> upper sn = sn -> streqb sn (unbs "MSH") = false -> valid_z_segment_name sn = false ->
+  slookup sn (t_segments t) = Some (SSeqIn false srows None) ->
+  rows_contiguous sn FIE 1 srows = true ->
+  (forall row, In row srows -> field_row_ok row) ->
+  canon_fields e PT vt -> length vt <= length srows ->
+  (forall i vf, In (i, vf) (indexed vt) -> wt_field srows i vf) ->
+  exists s,
+    parse_segment t TOLERANT e leaf (render_seg e sn vt) None = Ok s /\
+    enc_segment t e s false = Ok (render_seg e sn vt).
+Proof.
+  intros H3 Hup Hmsh Hz Hl Hc Hrows Hcan Hlen Hw.
+  destruct (seg_table_roundtrip sn srows (map (render_field e) vt) H3 Hup Hmsh Hz Hl Hc Hrows)
+    as [s [gs [Hp [_ [_ He]]]]].
+  - exact (fields_no_trail e PT vt Hcan).
+  - now rewrite map_length.
+  - intros i f Hif. apply in_indexed_map in Hif. destruct Hif as [vf [-> Hi]].
+    apply tfield_of_value; [|now apply Hw].
+    destruct Hcan as [_ Hfs]. rewrite Forall_forall in Hfs. apply Hfs. exact (in_indexed_in _ _ _ Hi).
+  - exists s. split; assumption.
+Qed.
+
+(* ------------------------------------------------------------------ *)
+(* boolean versions of the typed text conditions (to exhibit canonical lines by computation) *)
+
+Definition leaf_okb (dt : option str) (s : str) : bool :=
+  match leaf dt s with Ok r => streqb r s | Err _ => false end.
+Lemma leaf_okb_sound dt s : leaf_okb dt s = true -> leaf dt s = Ok s.
+Proof. unfold leaf_okb. destruct (leaf dt s) as [r|]; [|discriminate]. intros H. now rewrite (streqb_eq _ _ H). Qed.
+
+Definition subs_fixb (b : str) (text : str) : bool :=
+  forallb (fun s => nilb s || leaf_okb (Some b) s) (bsplit (ssep e) text).
+Lemma subs_fixb_sound b text : subs_fixb b text = true -> subs_fix e leaf b text.
+Proof.
+  unfold subs_fixb, subs_fix. apply forallb_Forall. intros s H. apply orb_prop in H.
+  destruct H as [H|H]; [left; now destruct s|right; now apply leaf_okb_sound].
+Qed.
+
+Definition comps_fixb (b : str) (r : str) : bool := forallb (subs_fixb b) (bsplit (csep e) r).
+Lemma comps_fixb_sound b r : comps_fixb b r = true -> comps_fix e leaf b r.
+Proof. unfold comps_fixb, comps_fix. apply forallb_Forall, subs_fixb_sound. Qed.
+
+Definition subs_okb (rows : list srow) (text : str) : bool :=
+  let ps := bsplit (ssep e) text in
+  no_trailb ps && Nat.leb (length ps) (length rows) &&
+  forallb (fun kp => nilb (snd kp) || (negb (is_blank (snd kp)) && leaf_okb (sub_dt t rows (fst kp)) (snd kp))) (indexed ps).
+Lemma subs_okb_sound rows text : subs_okb rows text = true -> subs_ok t e leaf rows text.
+Proof.
+  unfold subs_okb, subs_ok. cbv zeta. intros H.
+  apply andb_prop in H. destruct H as [H H2]. apply andb_prop in H. destruct H as [H0 H1].
+  split; [now apply no_trailb_sound|]. split; [now apply Nat.leb_le|].
+  intros k p Hkp. rewrite forallb_forall in H2. specialize (H2 _ Hkp). cbn [fst snd] in H2.
+  apply orb_prop in H2. destruct H2 as [H2|H2]; [left; now destruct p|right].
+  apply andb_prop in H2. destruct H2 as [Hb Hl]. split; [now apply negb_true_iff|now apply leaf_okb_sound].
+Qed.
+
+Definition comp_text_okb (row : srow) (s : str) : bool :=
+  match row_ref t row with
+  | Some (SLeaf i) => match i_dt i with Some b => subs_fixb b s | None => false end
+  | Some (SSeqDt i) =>
+      match i_dt i with
+      | Some D2 => match slookup D2 (t_structs t) with Some rows2 => subs_okb rows2 s | None => false end
+      | None => false
+      end
+  | _ => false
+  end.
+Lemma comp_text_okb_sound row s : comp_text_okb row s = true -> comp_text_ok row s.
+Proof.
+  unfold comp_text_okb, comp_text_ok. destruct (row_ref t row) as [[i|i|c cs oi|]|]; try discriminate.
+  - destruct (i_dt i); [apply subs_fixb_sound|discriminate].
+  - destruct (i_dt i) as [D2|]; [|discriminate]. destruct (slookup D2 (t_structs t)); [apply subs_okb_sound|discriminate].
+Qed.
+
+Definition tcomps_okb (rows : list srow) (r : str) : bool :=
+  nilb r ||
+  (let cs := bsplit (csep e) r in
+   no_trailb cs && Nat.leb (length cs) (length rows) &&
+   forallb (fun js => nilb (snd js) ||
+                      (negb (is_blank (snd js)) &&
+                       match nth_error rows (pred (fst js)) with Some row => comp_text_okb row (snd js) | None => false end))
+           (indexed cs)).
+Lemma tcomps_okb_sound rows r : tcomps_okb rows r = true -> tcomps_ok rows r.
+Proof.
+  unfold tcomps_okb, tcomps_ok. cbv zeta. intros H. apply orb_prop in H.
+  destruct H as [H|H]; [left; now destruct r|right].
+  apply andb_prop in H. destruct H as [H H2]. apply andb_prop in H. destruct H as [H0 H1].
+  split; [now apply no_trailb_sound|]. split; [now apply Nat.leb_le|].
+  intros j s0 Hjs. rewrite forallb_forall in H2. specialize (H2 _ Hjs). cbn [fst snd] in H2.
+  apply orb_prop in H2. destruct H2 as [H2|H2]; [left; now destruct s0|right].
+  apply andb_prop in H2. destruct H2 as [Hb Hl]. split; [now apply negb_true_iff|].
+  destruct (nth_error rows (pred j)) as [row|]; [|discriminate]. exists row. split; [reflexivity|].
+  now apply comp_text_okb_sound.
+Qed.
+
+Definition rep_text_okb (fr : sref) (r : str) : bool :=
+  match fr with
+  | SLeaf i =>
+      match i_dt i with
+      | Some b => (base (Some b) && comps_fixb b r) || (streqb b (unbs "varies") && comps_fixb (unbs "ST") r)
+      | None => false
+      end
+  | SSeqDt i =>
+      match i_dt i with
+      | Some D => match slookup D (t_structs t) with Some rows => tcomps_okb rows r | None => false end
+      | None => false
+      end
+  | _ => false
+  end.
+Lemma rep_text_okb_sound fr r : rep_text_okb fr r = true -> rep_text_ok fr r.
+Proof.
+  unfold rep_text_okb, rep_text_ok. destruct fr as [i|i|c cs oi|]; try discriminate.
+  - destruct (i_dt i) as [b|]; [|discriminate]. intros H. apply orb_prop in H.
+    destruct H as [H|H]; apply andb_prop in H; destruct H as [H1 H2].
+    + left. split; [exact H1|now apply comps_fixb_sound].
+    + right. split; [now apply streqb_eq|]. apply comps_fixb_sound in H2. exact H2.
+  - destruct (i_dt i) as [D|]; [|discriminate]. destruct (slookup D (t_structs t)); [apply tcomps_okb_sound|discriminate].
+Qed.
+
+Definition tfield_textb (srows : list srow) (i : nat) (f : str) : bool :=
+  negb (bmem (fsep e) f) && negb (bmem CR f) &&
+  (nilb f ||
+   (negb (is_blank f) &&
+    match nth_error srows (pred i) with
+    | Some row => match row_ref t row with
+                  | Some fr => forallb (rep_text_okb fr) (bsplit (rsep e) f)
+                  | None => false
+                  end
+    | None => false
+    end)).
+Lemma tfield_textb_sound srows i f : tfield_textb srows i f = true -> tfield_text srows i f.
+Proof.
+  unfold tfield_textb, tfield_text. intros H.
+  apply andb_prop in H. destruct H as [H H2]. apply andb_prop in H. destruct H as [H0 H1].
+  split; [now apply negb_true_iff|]. split; [now apply negb_true_iff|].
+  apply orb_prop in H2. destruct H2 as [H2|H2]; [left; now destruct f|right].
+  apply andb_prop in H2. destruct H2 as [Hb Hl]. split; [now apply negb_true_iff|].
+  destruct (nth_error srows (pred i)) as [row|]; [|discriminate].
+  destruct (row_ref t row) as [fr|] eqn:Er; [|discriminate].
+  exists row, fr. split; [reflexivity|]. split; [exact Er|].
+  revert Hl. apply forallb_Forall, rep_text_okb_sound.
+Qed.
+
+(* a whole line's field texts *)
+Definition line_okb (srows : list srow) (fs : list str) : bool :=
+  no_trailb fs && Nat.leb (length fs) (length srows) &&
+  forallb (fun p => tfield_textb srows (fst p) (snd p)) (indexed fs).
+Lemma line_okb_sound srows fs : line_okb srows fs = true ->
+  no_trail fs /\ length fs <= length srows /\ forall i f, In (i, f) (indexed fs) -> tfield_text srows i f.
+Proof.
+  unfold line_okb. intros H. apply andb_prop in H. destruct H as [H H2]. apply andb_prop in H. destruct H as [H0 H1].
+  split; [now apply no_trailb_sound|]. split; [now apply Nat.leb_le|].
+  intros i f Hif. rewrite forallb_forall in H2. apply (tfield_textb_sound srows i f). exact (H2 _ Hif).
+Qed.
+
+(* boolean form of the typed value-tree conditions *)
+Definition leaf_atb (dt : option str) (s : str) : bool := nilb s || leaf_okb dt s.
+Lemma leaf_atb_sound dt s : leaf_atb dt s = true -> leaf_at dt s.
+Proof.
+  unfold leaf_atb, leaf_at. intros H. apply orb_prop in H.
+  destruct H as [H|H]; [left; now destruct s|right; now apply leaf_okb_sound].
+Qed.
+
+Definition wt_compb (crow : srow) (c : vcomp) : bool :=
+  match row_ref t crow with
+  | Some (SLeaf i) => match i_dt i with Some b => forallb (leaf_atb (Some b)) c | None => false end
+  | Some (SSeqDt i) =>
+      match i_dt i with
+      | Some D2 => match slookup D2 (t_structs t) with
+                   | Some rows2 => Nat.leb (length c) (length rows2) &&
+                                   forallb (fun kp => leaf_atb (sub_dt t rows2 (fst kp)) (snd kp)) (indexed c)
+                   | None => false
+                   end
+      | None => false
+      end
+  | _ => false
+  end.
+Lemma wt_compb_sound crow c : wt_compb crow c = true -> wt_comp crow c.
+Proof.
+  unfold wt_compb, wt_comp. destruct (row_ref t crow) as [[i|i|? ? ?|]|]; try discriminate.
+  - destruct (i_dt i); [|discriminate]. apply forallb_Forall. intros s0. apply leaf_atb_sound.
+  - destruct (i_dt i) as [D2|]; [|discriminate]. destruct (slookup D2 (t_structs t)) as [rows2|]; [|discriminate].
+    intros H. apply andb_prop in H. destruct H as [H1 H2]. split; [now apply Nat.leb_le|].
+    intros k p0 Hkp. rewrite forallb_forall in H2. apply leaf_atb_sound. exact (H2 _ Hkp).
+Qed.
+
+Definition wt_repb (fr : sref) (vr : vrep) : bool :=
+  match fr with
+  | SLeaf i =>
+      match i_dt i with
+      | Some b => (base (Some b) && forallb (forallb (leaf_atb (Some b))) vr) ||
+                  (streqb b (unbs "varies") && forallb (forallb (leaf_atb (Some (unbs "ST")))) vr)
+      | None => false
+      end
+  | SSeqDt i =>
+      match i_dt i with
+      | Some D => match slookup D (t_structs t) with
+                  | Some rows => Nat.leb (length vr) (length rows) &&
+                                 forallb (fun jc => nilb (snd jc) ||
+                                                    match nth_error rows (pred (fst jc)) with
+                                                    | Some crow => wt_compb crow (snd jc)
+                                                    | None => false end) (indexed vr)
+                  | None => false
+                  end
+      | None => false
+      end
+  | _ => false
+  end.
+Lemma wt_repb_sound fr vr : wt_repb fr vr = true -> wt_rep fr vr.
+Proof.
+  unfold wt_repb, wt_rep. destruct fr as [i|i|? ? ?|]; try discriminate.
+  - destruct (i_dt i) as [b|]; [|discriminate]. intros H. apply orb_prop in H.
+    destruct H as [H|H]; apply andb_prop in H; destruct H as [H1 H2].
+    + left. split; [exact H1|]. revert H2. apply forallb_Forall. intros c. apply forallb_Forall. intros s0. apply leaf_atb_sound.
+    + right. split; [now apply streqb_eq|]. revert H2. apply forallb_Forall. intros c. apply forallb_Forall. intros s0. apply leaf_atb_sound.
+  - destruct (i_dt i) as [D|]; [|discriminate]. destruct (slookup D (t_structs t)) as [rows|]; [|discriminate].
+    intros H. apply andb_prop in H. destruct H as [H1 H2]. split; [now apply Nat.leb_le|].
+    intros j c Hjc. rewrite forallb_forall in H2. specialize (H2 _ Hjc). cbn [fst snd] in H2.
+    apply orb_prop in H2. destruct H2 as [H2|H2]; [left; now destruct c|right].
+    destruct (nth_error rows (pred j)) as [crow|]; [|discriminate]. exists crow. split; [reflexivity|now apply wt_compb_sound].
+Qed.
+
+Definition wt_fieldb (srows : list srow) (i : nat) (vf : vfield) : bool :=
+  nilb vf ||
+  match nth_error srows (pred i) with
+  | Some row => match row_ref t row with Some fr => forallb (wt_repb fr) vf | None => false end
+  | None => false
+  end.
+Lemma wt_fieldb_sound srows i vf : wt_fieldb srows i vf = true -> wt_field srows i vf.
+Proof.
+  unfold wt_fieldb, wt_field. intros H. apply orb_prop in H. destruct H as [H|H]; [left; now destruct vf|right].
+  destruct (nth_error srows (pred i)) as [row|]; [|discriminate].
+  destruct (row_ref t row) as [fr|] eqn:Er; [|discriminate].
+  exists row, fr. split; [reflexivity|]. split; [exact Er|]. revert H. apply forallb_Forall, wt_repb_sound.
+Qed.
+
+Definition vt_okb (srows : list srow) (vt : list vfield) : bool :=
+  canon_fieldsb e (fun _ => true) vt && Nat.leb (length vt) (length srows) &&
+  forallb (fun p => wt_fieldb srows (fst p) (snd p)) (indexed vt).
+Lemma vt_okb_sound srows vt : vt_okb srows vt = true ->
+  canon_fields e PT vt /\ length vt <= length srows /\ forall i vf, In (i, vf) (indexed vt) -> wt_field srows i vf.
+Proof.
+  unfold vt_okb. intros H. apply andb_prop in H. destruct H as [H H2]. apply andb_prop in H. destruct H as [H0 H1].
+  split; [apply (canon_fieldsb_sound e PT (fun _ => true)); auto|]. split; [now apply Nat.leb_le|].
+  intros i vf Hi. rewrite forallb_forall in H2. apply wt_fieldb_sound. exact (H2 _ Hi).
 Qed.
 
 End TableSeg.
